@@ -64,11 +64,12 @@ func tagOf(f eng.Field, src string) string {
 
 func streamFront(seed uint64, n int, driver string) (*Summary, error) {
 	sum := newSummary("front", seed)
-	sum.Rule = "random flat record schemas (1..5 fields of string/int/bool/time/[]string, Required/Default/tests, random json/form/query/env/zog tags) and, one case in four, a nested struct field; one record rendered through 6 front ends (Go map, zjson, zhttp JSON, form, query, env); non-trivial = at least one tag differs from the schema key or a field is missing; distinct = distinct (schema, record)"
+	sum.Rule = "random flat record schemas (1..5 fields of string/int/bool/time/[]string, Required/Default/tests, random json/form/query/env/zog tags) and, one case in four, a nested struct field; one record rendered through 6 front ends (Go map, zjson, zhttp JSON, form, query, env), in half of the cases through ONE shared schema object with a rotating first front end; non-trivial = at least one tag differs from the schema key or a field is missing; distinct = distinct (schema, record)"
 	root := rng.New(seed)
 	var lines []string
 	var impls []string
 	var what []string
+	var sharedObj []bool
 	distinct := map[string]bool{}
 	envLock := func(kv map[string]string, f func()) {
 		for k, v := range kv {
@@ -263,21 +264,41 @@ func streamFront(seed uint64, n int, driver string) (*Summary, error) {
 		}, input: flatV(query)})
 		rs = append(rs, rendering{name: "env", tag: "env", data: func() any { return zenv.NewDataProvider() }, input: envV, env: envs})
 
-		var norm []string
-		for _, rd := range rs {
-			c := &eng.Case{ID: len(lines), Mode: "p", Schema: schema, Dest: eng.ZeroD(schema), Input: rd.input, Tag: rd.tag}
-			rec := eng.NewRecorder()
-			zs := eng.Build(schema, rec)
-			var res *eng.Result
-			run := func() { res = eng.RunBuiltData(zs, c, rec, rd.data()) }
+		// Half of the cases use ONE schema object for all front ends (a package-level schema served by several
+		// handlers) and start with a different front end each time: nothing a front end does may change what
+		// the schema does for the next one (C19).
+		shared := i%2 == 0
+		sharedRec := eng.NewRecorder()
+		var sharedSchema = eng.Build(schema, sharedRec)
+		results := make([]*eng.Result, len(rs))
+		for step := range rs {
+			k := step
+			if shared {
+				k = (step + i/2) % len(rs)
+			}
+			rd := rs[k]
+			c := &eng.Case{Mode: "p", Schema: schema, Dest: eng.ZeroD(schema), Input: rd.input, Tag: rd.tag}
+			rec, zs := sharedRec, sharedSchema
+			if !shared {
+				rec = eng.NewRecorder()
+				zs = eng.Build(schema, rec)
+			}
+			rec.Events, rec.Order, rec.OrderPaths, rec.CtxLeak = nil, map[string][]string{}, nil, ""
+			run := func() { results[k] = eng.RunBuiltData(zs, c, rec, rd.data()) }
 			if rd.env != nil {
 				envLock(rd.env, run)
 			} else {
 				run()
 			}
+		}
+		var norm []string
+		for k, rd := range rs {
+			c := &eng.Case{ID: len(lines), Mode: "p", Schema: schema, Dest: eng.ZeroD(schema), Input: rd.input, Tag: rd.tag}
+			res := results[k]
 			lines = append(lines, c.Line(res.Order))
 			impls = append(impls, res.Sx(c.ID).String())
 			what = append(what, rd.name)
+			sharedObj = append(sharedObj, shared)
 			// normalised view for the cross-front-end comparison: issues keyed by schema key
 			keymap := map[string]string{}
 			for _, f := range schema.Fields {
@@ -354,8 +375,13 @@ func streamFront(seed uint64, n int, driver string) (*Summary, error) {
 		ip := iv.issueKeys(true, "code,path,dtype", nil) + " " + iv.dest.String()
 		mp := mv.issueKeys(true, "code,path,dtype", nil) + " " + mv.dest.String()
 		if ip != mp {
-			for _, p := range []string{"C14", "C10"} {
-				sum.addMismatch(p, Mismatch{Case: lines[i], Impl: impls[i], Model: modelLine, What: "front end " + what[i] + ": impl=" + ip + " model=" + mp})
+			props, note := []string{"C14", "C10"}, ""
+			if sharedObj[i] {
+				props = append(props, "C19")
+				note = " (one schema object served every front end of this record, in rotating order)"
+			}
+			for _, p := range props {
+				sum.addMismatch(p, Mismatch{Case: lines[i], Impl: impls[i], Model: modelLine, What: "front end " + what[i] + note + ": impl=" + ip + " model=" + mp})
 			}
 		}
 		if len(sum.Samples) < 3 && i%37 == 5 {
